@@ -47,6 +47,8 @@ OPS = [
     ['attach', 'a.bin', b'\x00\xff\x01'], ['attach', 'b.txt', b''], ['log'], ['read'],
     ['c', 3], ['c', 9],   # a measurement whose validator was switched on by a diagnosis of an earlier phase
     ['tbad'],   # a coordinate that cannot be a key (rejected: must leave no trace in any rendering)
+    ['getatt', 'a.bin'],    # the phase looks at (a copy of) an attachment and drops the copy again
+    ['attach', 'big.bin', bytes(range(256)) * 28],     # 7 KiB: one JSON string token of more than 8 KiB once inlined
     ['pl'],     # publish a mutable list: first time [0.0]; later: append to the SAME object and publish it again
 ]
 
@@ -58,6 +60,8 @@ def opsig(op):
     return '%s[%s]=%s' % (op[0], op[1], op[2])
   if op[0] == 'attach':
     return 'attach(%s)' % op[1]
+  if op[0] == 'getatt':
+    return 'get_attachment(%s)' % op[1]
   return op[0]
 
 
@@ -99,6 +103,7 @@ def run_history(hist):
   reads = []
 
   shared = []
+  seen_att = []
 
   def body(state):
     test = state.test_api
@@ -127,6 +132,13 @@ def run_history(hist):
           test.attach(op[1], op[2])
         except Exception:  # pylint: disable=broad-except
           pass   # duplicate name: rejected, must change nothing
+      elif op[0] == 'getatt':
+        import gc  # pylint: disable=g-import-not-at-top
+        a = test.get_attachment(op[1])
+        if a is not None:
+          seen_att.append((op[1], a.data))
+        del a
+        gc.collect()
       elif op[0] == 'log':
         test.logger.info('log line %d', i)
       elif op[0] == 'read':
